@@ -9,7 +9,7 @@
    handed in as data: the sign of the solid angle of each declared interface at an interior point
    ([is_mesh_orientations_coherent]) and, per probe point, whether it is inside each interface
    ([Interface::contains]). *)
-From OM Require Import Base.Lists Base.Ops.
+From OM Require Import Base.Lists Base.Ops Geom.MeshTopo.
 Local Open Scope Z_scope.
 
 (* ------------------------------------------------------------------ description *)
@@ -73,7 +73,7 @@ Fixpoint load_meshes (ms : list mesh) (ims : list (list nat)) : option (list lme
   match ms, ims with
   | m :: r, im :: ir =>
       match map_tris im (m_tris m), load_meshes r ir with
-      | Some ts, Some lr => Some (mkLMesh im ts :: lr)
+      | Some ts, Some lr => Some (mkLMesh im (correct_local_orientation ts) :: lr)   (* Mesh::update(true) *)
       | _, _ => None
       end
   | _, _ => Some []
